@@ -204,6 +204,108 @@ theorem mkMaskStrict_wf {s v : View ν α} {masks : List (ν × IndexRange)} (hs
   · exact mkMaskAllStrict_wf hs h
   · simp at h
 
+/-! ### matrix adaptors between `MatrixRefTensor` and `TensorRefMatrix` -/
+
+theorem shape_two {sh : Shape ν} (h : sh.length = 2) : ∃ d0 d1, sh = [d0, d1] := by
+  match sh, h with
+  | [d0, d1], _ => exact ⟨d0, d1, rfl⟩
+
+theorem clip_length_le (r : IndexRange) (max : Nat) : (r.clip max).length ≤ max := (clip_spec r max).2.2
+
+/-- a stack of matrix adaptors keeps two dimensions, and an empty dimension stays empty -/
+theorem applyMatOps_shape (ops : List MatOp) : ∀ (s : View ν α), s.shape.length = 2 →
+    (applyMatOps s ops).shape.length = 2 ∧
+    ((s.shape.getD 0 (default, 0)).2 = 0 → ((applyMatOps s ops).shape.getD 0 (default, 0)).2 = 0) ∧
+    ((s.shape.getD 1 (default, 0)).2 = 0 → ((applyMatOps s ops).shape.getD 1 (default, 0)).2 = 0) := by
+  induction ops with
+  | nil => intro s h; exact ⟨h, fun h => h, fun h => h⟩
+  | cons op ops ih =>
+    intro s h
+    obtain ⟨d0, d1, hs⟩ := shape_two h
+    cases op with
+    | range rows columns =>
+      simp only [applyMatOps]
+      have hn : (View.mrange s (rows.clip (s.shape.getD 0 (default, 0)).2)
+          (columns.clip (s.shape.getD 1 (default, 0)).2)).shape.length = 2 := by
+        simp [View.shape, hs, rangeShape]
+      obtain ⟨a, b, c⟩ := ih _ hn
+      refine ⟨a, ?_, ?_⟩
+      · intro hz
+        apply b
+        have := clip_length_le rows (s.shape.getD 0 (default, 0)).2
+        simp only [View.shape, hs, rangeShape, List.getD_cons_zero] at this hz ⊢
+        omega
+      · intro hz
+        apply c
+        have := clip_length_le columns (s.shape.getD 1 (default, 0)).2
+        simp only [View.shape, hs, rangeShape, List.getD_cons_succ, List.getD_cons_zero] at this hz ⊢
+        omega
+    | reverse rows columns =>
+      simp only [applyMatOps]
+      exact ih (View.mreverse s rows columns) (by simpa [View.shape] using h)
+
+/-- if the matrix that comes out has no empty dimension, every adaptor of the stack is well
+    formed (its ranges are clipped and non-empty) -/
+theorem applyMatOps_wf (ops : List MatOp) : ∀ (s : View ν α), s.WF → s.shape.length = 2 →
+    1 ≤ ((applyMatOps s ops).shape.getD 0 (default, 0)).2 →
+    1 ≤ ((applyMatOps s ops).shape.getD 1 (default, 0)).2 → (applyMatOps s ops).WF := by
+  induction ops with
+  | nil => intro s hs _ _ _; exact hs
+  | cons op ops ih =>
+    intro s hs h h0 h1
+    obtain ⟨d0, d1, hsq⟩ := shape_two h
+    cases op with
+    | range rows columns =>
+      simp only [applyMatOps] at h0 h1 ⊢
+      obtain ⟨rs0, r2, _⟩ := clip_spec rows (s.shape.getD 0 (default, 0)).2
+      obtain ⟨cs0, c2, _⟩ := clip_spec columns (s.shape.getD 1 (default, 0)).2
+      have e0 : (s.shape.getD 0 (default, 0)).2 = d0.2 := by simp [hsq]
+      have e1 : (s.shape.getD 1 (default, 0)).2 = d1.2 := by simp [hsq]
+      generalize rows.clip (s.shape.getD 0 (default, 0)).2 = R at *
+      generalize columns.clip (s.shape.getD 1 (default, 0)).2 = C at *
+      rw [e0] at r2
+      rw [e1] at c2
+      have hnsh : (View.mrange s R C).shape = [(d0.1, R.length), (d1.1, C.length)] := by
+        simp [View.shape, hsq, rangeShape]
+      have hn : (View.mrange s R C).shape.length = 2 := by simp [hnsh]
+      obtain ⟨_, z0, z1⟩ := applyMatOps_shape ops _ hn
+      refine ih _ ?_ hn h0 h1
+      simp only [View.WF]
+      refine ⟨hs, h, ?_⟩
+      have hr : 1 ≤ R.length := by
+        rcases Nat.eq_zero_or_pos R.length with hz | hp
+        · have := z0 (by simp [hnsh, hz]); omega
+        · exact hp
+      have hc : 1 ≤ C.length := by
+        rcases Nat.eq_zero_or_pos C.length with hz | hp
+        · have := z1 (by simp [hnsh, hz]); omega
+        · exact hp
+      simp only [hsq, RangesOK]
+      exact ⟨⟨hr, by omega⟩, ⟨hc, by omega⟩, trivial⟩
+    | reverse rows columns =>
+      simp only [applyMatOps] at h0 h1 ⊢
+      exact ih (View.mreverse s rows columns) (by simp only [View.WF]; exact ⟨hs, h⟩)
+        (by simpa [View.shape] using h) h0 h1
+
+theorem mkMatrixStack_wf {s v : View ν α} {ops : List MatOp} {r c : ν} (hs : s.WF)
+    (h : mkMatrixStack s ops r c = some v) : v.WF := by
+  simp only [mkMatrixStack] at h
+  split at h
+  · simp at h
+  · rename_i hl
+    have hl2 : s.shape.length = 2 := by simpa using hl
+    have hsh := (applyMatOps_shape ops s hl2).1
+    refine mkMatrixOf_wf (s := applyMatOps s ops) ?_ h
+    -- `with_names` accepted the final shape: no empty dimension
+    have hv : isValidShape [(r, ((applyMatOps s ops).shape.getD 0 (default, 0)).2),
+        (c, ((applyMatOps s ops).shape.getD 1 (default, 0)).2)] = true := by
+      simp only [mkMatrixOf, hsh, ne_eq, not_true_eq_false, if_false] at h
+      split at h
+      · assumption
+      · simp at h
+    rw [isValidShape_iff] at hv
+    exact applyMatOps_wf ops s hs hl2 (hv.2 (r, _) (List.Mem.head _)) (hv.2 (c, _) (List.Mem.tail _ (List.Mem.head _)))
+
 /-! ### rename, reverse -/
 
 theorem mkRename_wf {s v : View ν α} {dimensions : List ν} (hs : s.WF)
